@@ -31,7 +31,8 @@ THEOREMS = [f'Gnpy.Fiber.{t}' for t in (
     'lumped_same_position_failed_before_fix', 'cd_additive', 'latency_additive', 'quadrature_fold', 'quadrature_perm',
     'pmd_quadrature', 'pdl_quadrature', 'path_order_irrelevant', 'fibre_pmd_sq', 'fibre_pdl_unchanged', 'latency_formula',
     'cd_at_ref')] + [f'Gnpy.Raman.{t}' for t in (
-    'euler_zero_cr', 'eulerFactor_bounds', 'perturbative_zero_cr', 'perturbative_low_power',
+    'euler_zero_cr', 'eulerFactor_bounds', 'perturbative_zero_cr', 'perturbGo_zero_cr', 'perturbative_zero_cr_grid',
+    'perturbative_low_power',
     'counterprop_gain_only_partial', 'gamma1_nonneg')]
 RULE = ('cases from one PRNG: (a) one span: random fibre (0.1-300 km in km or m, scalar or per-frequency loss, 0-3 lumped '
         'losses, ~6 % with two lumped losses at one position, connectors, padding, dispersion +/-/slope/table) x comb of 1-24 '
@@ -54,9 +55,10 @@ PARTIAL = [
     'counterprop_gain_only_partial: proved: the first-order perturbative term of a channel is non-negative when every wave '
     'has non-negative Raman efficiency onto it (pumps above the signal); the full statement (output power with '
     'counter-propagating pumps on >= with pumps off, iterative algorithm, any setting) is checked by the monitor only',
-    'low-power limit: proved for the unidirectional solver (euler_zero_cr + eulerFactor_bounds: Euler equals the budget up to '
-    '2 a^2 sum dz^2 Neper; perturbative_zero_cr / perturbative_low_power: exactly the budget on every interval between lumped '
-    'losses); the interval bookkeeping of the perturbative loop (perturbGo), iterative_algorithm and the interpolation to the '
+    'low-power limit: proved for the unidirectional solver at zero Raman efficiency (euler_zero_cr + eulerFactor_bounds: Euler '
+    'equals the budget up to 2 a^2 sum dz^2 Neper; perturbative_zero_cr_grid: orders 0-4 give exactly exp(-aL) x the lumped '
+    'factors inside the fibre, each once) and, for order 1, linearity of the Raman term in the power scale '
+    '(perturbative_low_power); a quantitative bound at small non-zero power, iterative_algorithm and the interpolation to the '
     'result grid are under correspondence / monitor only',
     'lumped loss counted once with Raman on: theorem for Raman off (lumped_once) and for Euler at zero Raman efficiency '
     '(euler_zero_cr: every lumped factor of the grid exactly once); with Raman on at finite power: monitor at low power']
@@ -561,6 +563,7 @@ def run_raman(case, drv):
             res.mismatch(name + '.shape', list(impl.shape), [len(model), len(model[0]) if model else 0])
         else:
             res.cmp_floats(name, impl.ravel(), [x for r in model for x in r], abs_=0.0)
+            res.cmp_floats(name + '.end', impl[:, -1], [b2f(x) for x in ans['end']], abs_=0.0)
     # ---- correspondence 2: Fiber.__call__ with the Raman flag on (no pumps): output power per channel
     if not pumps:
         with FB.sim_params(_raman_sim(case)):
